@@ -299,6 +299,9 @@ fn others() -> Vec<Val> {
     let mut v: Vec<Val> = Vec::new();
     for e in [
         // strings
+        // escapes the parser keeps (`\-`, `\\`, control characters) against the same text without them
+        "a-b", "\"a\\-b\"", "\"a-b\"", "string.unquote(\"a\\-b\")", "\"a\\\\b\"", "string.unquote(\"a\\\\b\")", "\"a\\a b\"",
+        "string.unquote(\"a\\a b\")", "\"a\\ b\"", "string.unquote(\"a\\ b\")",
         "a", "\"a\"", "'a'", "\"\\61\"", "A", "\"a \"", "\"\"", "''", "string.unquote(\"\")", "\"a\\\"b\"", "'a\"b'",
         "\"1\"", "\"red\"", "\"null\"", "\"true\"", "\"1px\"", "string.unquote(\"a b\")", "\"a b\"", "ab",
         "(\"a\" + \"b\")", "(a + b)", "url(x)", "\"url(x)\"", "calc(1px + 1%)", "calc(1% + 1px)", "foo(1)",
